@@ -45,6 +45,13 @@ def main(tier_):
                         cases.append(dict(id="c08|%s|%s|%s|%s|%s|%s" % (hname, "root" if priv else "unpriv", ctor, base, path, opn[0]), tree=[], feat={"openat2": True}, trace=True, raw=True,
                                           cold=True, procmount=opts if hname != "default" else None, timeout=60, calls=calls,
                                           meta=dict(host=hname, priv=priv, ctor=ctor, base=base, path=path, pathkind=pk, op=opn[0])))
+                        if pk != "missing":
+                            # history: the same lookup after a lookup of a missing entry on the same handle -- the model's
+                            # outcome is a function of (handle, host, privilege, path) only, so an earlier ENOENT must not matter
+                            miss = dict(calls[-1], path="nonexistent-entry")
+                            cases.append(dict(id="c08h|%s|%s|%s|%s|%s|%s" % (hname, "root" if priv else "unpriv", ctor, base, path, opn[0]), tree=[], feat={"openat2": True}, trace=True, raw=True,
+                                              cold=True, procmount=opts if hname != "default" else None, timeout=60, calls=calls[:-1] + [miss, calls[-1]],
+                                              meta=dict(host=hname, priv=priv, ctor=ctor, base=base, path=path, pathkind=pk, op=opn[0], history="after-missing")))
     if tier_ == "quick":
         rnd = random.Random(seed())
         # the unprivileged / masked combinations are where the retry logic lives: keep all of those, sample the rest
@@ -52,7 +59,10 @@ def main(tier_):
         rest = [c for c in cases if c not in hot]
         rnd.shuffle(hot)
         rnd.shuffle(rest)
-        cases = hot[:260] + rest[:80]
+        hist = [c for c in hot + rest if c["meta"].get("history")]
+        hot = [c for c in hot if not c["meta"].get("history")]
+        rest = [c for c in rest if not c["meta"].get("history")]
+        cases = hot[:260] + rest[:80] + hist[:200]
     for c in cases:
         if c.get("procmount") is None:
             c.pop("procmount")
@@ -99,9 +109,9 @@ def main(tier_):
     for b in tr["report"]["bad"]:
         c = by.get(b["case"], {})
         m = c.get("meta", {})
-        v.violation(dict(check="proc-retry", what=b["what"], host=m.get("host"), priv=m.get("priv"), ctor=m.get("ctor"), op=m.get("op"), path=m.get("path")),
-                    "C08: %s -- %s(%s, %r) via %s on /proc[%s] as %s: outcome %s, %d procfs handles, peak %d descriptors, %d syscalls" % (
-                        b["what"], m.get("op"), m.get("base"), m.get("path"), m.get("ctor"), m.get("host"), "root" if m.get("priv") else "unprivileged", b["outcome"], b["handles"], b["peak"], b["nsys"]), c)
+        v.violation(dict(check="proc-retry", what=b["what"], host=m.get("host"), priv=m.get("priv"), ctor=m.get("ctor"), op=m.get("op"), path=m.get("path"), history=m.get("history")),
+                    "C08: %s -- %s(%s, %r)%s via %s on /proc[%s] as %s: outcome %s, %d procfs handles, peak %d descriptors, %d syscalls" % (
+                        b["what"], m.get("op"), m.get("base"), m.get("path"), " after a lookup of a missing entry on the same handle" if m.get("history") else "", m.get("ctor"), m.get("host"), "root" if m.get("priv") else "unprivileged", b["outcome"], b["handles"], b["peak"], b["nsys"]), c)
     rc = v.finish()
     samples = [r for r in recs if r["handles"] > 1][:3] + recs[:2]
     cov = dict(states=design["distinct"] + tr["tlc"]["distinct"], transitions=design["states"] + len(recs), traces_validated_against_impl=len(recs), samples=samples, evaluations=len(cases),
